@@ -46,3 +46,20 @@ Definition task_args_legacy (argv : list nat) : list nat :=
   | Some d => if Nat.eqb d (length argv - 1) then [] else skipn (S d) argv
   | None => []
   end.
+
+(* ---- the target loop over ONE task runner: a target may succeed and yet leave the runner cancelled (a pipeline with a stage whose
+   condition cannot be evaluated and that allows failure: the scheduler cancels the runner, the pipeline reports no error).  Every later
+   target is then refused by the runner (`context canceled`): it runs nothing and fails. ---- *)
+Inductive teffect := EOk | EFail | ECancelOk.
+Record cli_result_e := mkCliE { ran_e : list nat; refused_e : option nat; exit_e : nat }.
+
+Fixpoint run_targets_e (eff : nat -> teffect) (targets : list nat) : cli_result_e :=
+  match targets with
+  | [] => mkCliE [] None 0
+  | t :: rest =>
+    match eff t with
+    | EOk => let r := run_targets_e eff rest in mkCliE (t :: ran_e r) (refused_e r) (exit_e r)
+    | EFail => mkCliE [t] None 1
+    | ECancelOk => match rest with [] => mkCliE [t] None 0 | u :: _ => mkCliE [t] (Some u) 1 end
+    end
+  end.
